@@ -2,7 +2,7 @@
 simulator) issues every request kind it has; the sequence byte of each datagram on the wire is
 judged against the successor model (pack commands 192..255, everything else 1..191)."""
 from .. import clients, refcodec as R, vworld
-from ..runner import HarnessError, InvalidCase
+from ..runner import HarnessError, InvalidCase, SetupFailed
 
 EXPECT = {  # op -> (verb on the wire, is pack command)
     "press": (b"SPACK", True), "set": (b"SPACK", True), "getwc": (b"GETWC", False), "setwc": (b"SETWC", False),
@@ -42,7 +42,7 @@ def run(res, case):
             # the handshake consumed protocol numbers: take the model to where the wire says the connection is
             hs = [s for v, s in seq_datagrams(0) if v in (b"AVERS", b"CURCH", b"SFILE", b"STATU")]
             if not hs:
-                raise HarnessError("no handshake requests on the wire")
+                raise SetupFailed("no handshake requests on the wire")
             for _ in range(len(hs)):
                 m.next(False)
             if hs != list(range(1, len(hs) + 1)):
